@@ -5,7 +5,7 @@
    open_registry() reads that file; a fresh instance of class k is set from the cache". *)
 From Coq Require Import List NArith ZArith.
 Import ListNotations.
-Require Import Base.Wire Base.PyStr C15.Model C15.Lemmas C15.Names C15.Codec C15.Split C15.File C15.FileMulti C15.Tree C15.Final C15.Atomic C15.Gen C15.Restart C15.Wrapped C15.NormRT.
+Require Import Base.Wire Base.PyStr C15.Model C15.Lemmas C15.Names C15.Codec C15.Split C15.File C15.FileMulti C15.Tree C15.Final C15.Atomic C15.Gen C15.Restart C15.Wrapped C15.NormRT C15.Reset C15.ResetWorld.
 Require Import gen.T15.
 
 (* ---- names: split inverts join for every non-empty list of names (full statement since the
@@ -304,3 +304,85 @@ Print Assumptions C15_normalized_roundtrip_empty.
 Theorem C15_normalize_words : forall V, words_ok V -> normalize (join [SP] V) = join [SP] V.
 Proof. exact normalize_words. Qed.
 Print Assumptions C15_normalize_words.
+
+(* ---- timestamps, `config reload` in a running bot, `config reset`.
+   t_setvalue tv p v true now = node p._setValue(v, inherited=True) at instant now (the reset commands);
+   tcall = node(): the lazy reload of Value.__call__ (registry._lastModified [glm] newer than the node's
+   timestamp and the node's name in registry._cache -> set from the cached text).
+   A value reset not before the last open_registry stays reset: it is unset, holds the parent's value,
+   and a later read returns that value and changes nothing, whatever the cache still holds. *)
+Theorem C15_reset_stays_reset :
+  forall d C tv p v now now2 glm,
+  p <> [] -> (glm <= now)%nat ->
+  let tv1 := t_setvalue tv p v true now in
+  t_flag tv1 p = false /\ t_val tv1 p = v /\ tcall d C glm now2 tv1 p = Ok (tv1, v).
+Proof. exact reset_stays_reset. Qed.
+Print Assumptions C15_reset_stays_reset.
+
+(* the timestamp refresh of an inherited _setValue is what it rests on: a reset node left with a timestamp
+   older than the last open_registry is set again from the cache by the next read *)
+Theorem C15_stale_timestamp_refuted :
+  match tcall ex_rd ex_rcache 3 6 ex_rstale [[35; 97]] with
+  | Ok (tv, v) => v = PI (Zpos 33) /\ t_flag tv [[35; 97]] = true
+  | Raise _ => False
+  end.
+Proof. exact stale_timestamp_resurrects. Qed.
+Print Assumptions C15_stale_timestamp_refuted.
+
+(* end to end on the session model: file with a channel value; reload in the running bot; reset; the general
+   value changes; read; restart; read: the channel value follows the general one, its line is not saved *)
+Theorem C15_reload_reset_history :
+  tgenerations [ex_rd] []
+    [[TSet 0 AG [50; 48]; TSet 0 (AC [35; 97]) [51; 51]];
+     [TReload; TReset 0 (AC [35; 97]); TSet 0 AG [55]; TRead 0 (AC [35; 97])];
+     [TRead 0 (AC [35; 97])]]
+  = [Ok ([([118], [50; 48]); (join_names [[118]; [35; 97]], [51; 51])], []);
+     Ok ([([118], [55])], [PI (Zpos 7)]);
+     Ok ([([118], [55])], [PI (Zpos 7)])].
+Proof. exact reload_reset_history. Qed.
+Print Assumptions C15_reload_reset_history.
+
+(* ---- world level (since the repair of C15.F29: the reset commands also drop the node's entry of
+   registry._cache).  From any world: `config reset channel` of <var i>.#c [TReset], a flush [TSave],
+   `config reload` [TReload: open_registry of the saved file, the cache is NOT cleared], then a read:
+   the value is still unset, the read returns the node's current value and changes nothing.
+   Hypotheses: the node list of the variable has no two entries with equivalent keys, the saved file is
+   well formed, and no saved line bears the node's name (it is unset; the names of other nodes differ). *)
+Theorem C15_reset_survives_reload :
+  forall D w i c w1 w2 w3,
+  (i < length D)%nat -> (i < length (w_vars w))%nat ->
+  nodup_keys (tv_nodes (nth i (w_vars w) tv_dflt)) ->
+  trun D w [TReset i (AC c)] = Ok (w1, []) ->
+  trun D w1 [TSave] = Ok (w2, []) ->
+  forallb line_ok (w_file w2) = true ->
+  (forall kv, In kv (w_file w2) ->
+     seq_eqb (lower (join_names (d_ns (nth i D dflt_decl) ++ [c]))) (lower (fst kv)) = false) ->
+  trun D w2 [TReload] = Ok (w3, []) ->
+  let d := nth i D dflt_decl in
+  let tv := nth i (w_vars w3) tv_dflt in
+  t_flag tv [c] = false /\
+  (forall now, tread d (w_cache w3) (w_glm w3) now tv (AC c) = Ok (tv, t_val tv [c])) /\
+  trun D w3 [TRead i (AC c)] =
+    Ok (mktw (S (w_clk w3)) (w_glm w3) (w_cache w3) (w_file w3) (w_vars w3), [t_val tv [c]]).
+Proof. exact reset_survives_reload. Qed.
+Print Assumptions C15_reset_survives_reload.
+
+(* the same for `config reset network` *)
+Theorem C15_reset_survives_reload_net :
+  forall D w i n w1 w2 w3,
+  (i < length D)%nat -> (i < length (w_vars w))%nat ->
+  nodup_keys (tv_nodes (nth i (w_vars w) tv_dflt)) ->
+  trun D w [TReset i (AN n)] = Ok (w1, []) ->
+  trun D w1 [TSave] = Ok (w2, []) ->
+  forallb line_ok (w_file w2) = true ->
+  (forall kv, In kv (w_file w2) ->
+     seq_eqb (lower (join_names (d_ns (nth i D dflt_decl) ++ [n]))) (lower (fst kv)) = false) ->
+  trun D w2 [TReload] = Ok (w3, []) ->
+  let d := nth i D dflt_decl in
+  let tv := nth i (w_vars w3) tv_dflt in
+  t_flag tv [n] = false /\
+  (forall now, tread d (w_cache w3) (w_glm w3) now tv (AN n) = Ok (tv, t_val tv [n])) /\
+  trun D w3 [TRead i (AN n)] =
+    Ok (mktw (S (w_clk w3)) (w_glm w3) (w_cache w3) (w_file w3) (w_vars w3), [t_val tv [n]]).
+Proof. exact reset_survives_reload_net. Qed.
+Print Assumptions C15_reset_survives_reload_net.
